@@ -41,7 +41,7 @@ Definition show_biterr (e : biterr) : string :=
   end.
 
 Inductive bitop :=
-| OpU (width n : N) | OpI32 (n : N) | OpUe | OpSe | OpB | OpSkip (n : N) | OpMore | OpFin | OpFinSei.
+| OpU (width n : N) | OpTo (bytes : N) | OpI32 (n : N) | OpUe | OpSe | OpB | OpSkip (n : N) | OpMore | OpFin | OpFinSei.
 
 Definition show_out {A} (f : A -> string) (x : out biterr A) : string :=
   match x with
@@ -66,6 +66,7 @@ Fixpoint run_bitops (ops : list bitop) (s : src) : list string :=
       end in
     match op with
     | OpU w n => step _ (read_u w n "x") (fun v => "v" ++ show_N v)
+    | OpTo k => step _ (read_u (8 * k) (8 * k) "x") (fun v => "v" ++ show_N v)
     | OpI32 n => step _ (read_u 32 n "x") (fun v => "v" ++ show_Z (as_i32 v))
     | OpUe => step _ (read_ue "x") (fun v => "v" ++ show_N v)
     | OpSe => step _ (read_se "x") (fun v => "v" ++ show_Z v)
@@ -216,7 +217,7 @@ Definition show_invocation (i : invocation) : string :=
                          end
              | [] => "PANIC"
              end in
-  hex bytes ++ ";" ++ show_bit (inv_complete i) ++ ";" ++ e ++ ";" ++ hdr.
+  hex bytes ++ ";" ++ show_bit (inv_complete i) ++ ";" ++ e ++ ";" ++ hdr ++ ";rd=same".
 
 Definition cmd_accum (frs : list (list (list byte) * bool)) (pol : list interest) : string :=
   join " " (map show_invocation (run_fragments acc_init pol frs)).
